@@ -1857,10 +1857,13 @@ def run(ck):
         small = shrink(fmt, spec, spec_fails(fmt, bad[0])) if not kd else spec
         b2, _ = oracle(fmt, build(small), fresh=lambda small=small: build(small))
         what2 = b2[1] if b2 else what
+        # the structures written and read before this one in the run are part of the input when a writer or reader keeps
+        # state between calls: the replay repeats them when the case does not fail on its own
         ck.fail(key, "%s  [minimal structure: %s]" % (what2, describe(small)),
-                {"kind": "oracle", "format": fmt, "spec": small, "original_spec": spec,
-                 "expected": "round trip preserves the carried fields and is a fixed point from the second trip on",
-                 "observed": what2})
+                common.LazyReplay({"kind": "oracle", "format": fmt, "spec": small, "original_spec": spec,
+                                   "expected": "round trip preserves the carried fields and is a fixed point from the second trip on",
+                                   "observed": what2},
+                                  history=lambda ci=ci: [[f_, sp_] for f_, sp_ in cases[:ci]][-400:]))
     for ci, (fmt, spec, s, bad, info, rng_reason) in enumerate(results):
         if bad is not None or fmt not in MODEL_FORMATS:
             continue
@@ -1997,5 +2000,19 @@ def replay(path):
     if bad:
         print("replay: still fails:", bad[1])
         return 1
+    if obj.get("history"):
+        # not on its own: repeat the round trips made before it in the run that found it (state kept between calls)
+        for f_, sp_ in obj["history"]:
+            try:
+                oracle(f_, build(sp_), fresh=lambda sp_=sp_: build(sp_))
+            except Exception:  # noqa: BLE001
+                pass
+        for sp_ in (obj["spec"], obj.get("original_spec")):
+            if sp_ is None:
+                continue
+            bad, _ = oracle(fmt, build(sp_), fresh=lambda sp_=sp_: build(sp_))
+            if bad:
+                print("replay: fails after the %d round trips made before it: %s" % (len(obj["history"]), bad[1]))
+                return 1
     print("replay: the round trip property holds on this input")
     return 0
